@@ -159,7 +159,10 @@ def run(F, R, tier):
                         "an allowed request is recorded as a failed authorization at line(s) %s" % [B.line(b) for b in hit])
             # outermost "result != Ok" edges: reachable from authorize() before any record and before another such edge
             r0 = B.reach([auth[0][0]], cut_edges=ne_ok, cut_blocks=failed_logs)
-            outer = sorted(e for e in ne_ok if e[0] in r0)
+            # (the edge itself has to be takeable on such a path: a second test of the same value after the record, `if matches!(v,
+            # Forbidden)`, is entered with v == Ok on the record-free path and cannot take its Forbidden edge)
+            outer = sorted(e for e in ne_ok if e[0] in r0 and
+                           B.path([auth[0][0]], [e[1]], cut_edges=[x for x in ne_ok if x != e], cut_blocks=failed_logs) is not None)
             R.floor("C11.R2", len(outer), 1, "outermost result != Ok edges after authorize()")
             for e in outer:
                 # at least one
